@@ -71,7 +71,7 @@ def hook(w, label):
         peer = w.node.peers.get(name)
         if peer is None or peer.connection is not None:
             continue
-        surv = [ident for ident, nc in w.node.connections.items() if name in (nc.node_name, nc.host_identity)]
+        surv = [ident for ident, nc in w.node.connections.items() if (nc.node_name or nc.host_identity or "").lower() == name]
         if surv:
             # the known hole leaves a connection unreferenced that was never assigned to the peer
             survivor_kind[name] = "never-referenced-survivor" if not (set(surv) & ever) else "previously-referenced-survivor"
@@ -93,6 +93,7 @@ def hook(w, label):
 def with_monitor(fn):
     """Run fn() with the table monitor armed; returns (result of fn, violations, removed_while_live)."""
     _collector["v"] = []
+    _collector["classes"] = []
     _collector["removed_while_live"] = False
     _collector["simultaneous"] = set()
     _collector["ever_referenced"] = set()
@@ -122,6 +123,7 @@ def run_dedicated(case):
         w.start()
         npeers = len(case["peers"])
         cer_sent = set()
+        other_identity = []
         hbh = 0x300
         for ev in case["events"]:
             kind = ev[0]
@@ -164,8 +166,13 @@ def run_dedicated(case):
                 if cands:
                     c = cands[-1]
                     pi = int(c.remote.addr[0].split(".")[-1]) - 1
-                    w.answer_cer(c, ev[1], auth=(W.APP_RELAY,) if hbh % 3 == 0 else (4,),
-                                 host=f"peer{pi + 1}.example" if hbh % 2 else f"PEER{pi + 1}.example")
+                    spelled_ = f"peer{pi + 1}.example" if hbh % 2 else f"PEER{pi + 1}.example"
+                    if hbh % 5 == 0 and npeers > 1 and ev[1] == 2001:
+                        # the dialled address answers with the identity of ANOTHER configured peer (addresses mixed
+                        # up in the configuration): the connection still is the dialled peer's and nobody else's
+                        spelled_ = f"peer{(pi + 1) % npeers + 1}.example"
+                        other_identity.append(pi)
+                    w.answer_cer(c, ev[1], auth=(W.APP_RELAY,) if hbh % 3 == 0 else (4,), host=f"peer{pi + 1}.example", spelled=spelled_)
                     c.host = f"peer{pi + 1}.example"
             else:
                 live = [c for c in w.conns if not c.node_closed and not c.peer_closed]
@@ -197,6 +204,8 @@ def run_dedicated(case):
                         w.node.close_connection_socket(nc, pm.DISCONNECT_REASON_UNKNOWN)
                         w.run()
         w.advance(1)
+        if other_identity:
+            _collector.setdefault("classes", []).append("cea:identity-of-another-peer")
         return w.summary(), bool(W.monitor_threads(w))
     finally:
         w.close()
@@ -213,6 +222,7 @@ def evaluate(case) -> Result:
     else:
         ((summary, died), viol, rwl) = with_monitor(lambda: run_dedicated(case))
         res.classes.append("machine:dedicated")
+        res.classes += list(_collector.get("classes", []))
         if died:
             res.classes.append("cross:thread-died")
         for ev in case["events"]:
@@ -355,7 +365,7 @@ def run(tier, scale=1.0):
     rec = Recorder(PID)
     for d in hyp.pool_run(shard_main, (tier, scale)):
         rec.merge(d)
-    required = {"cer:relay": 1, "cer:mixed-case": 1, "machine:dedicated": 1, "machine:c10": 1, "machine:c06": 1, "machine:c12": 1, "machine:c09": 1, "ev:NODE_CLOSE": 1,
+    required = {"cea:identity-of-another-peer": 1, "cer:relay": 1, "cer:mixed-case": 1, "machine:dedicated": 1, "machine:c10": 1, "machine:c06": 1, "machine:c12": 1, "machine:c09": 1, "ev:NODE_CLOSE": 1,
                 "ev:ACCEPT": 1, "ev:DIAL": 1, "ev:RESET": 1, "ev:WRITE_FAIL": 1}
     return finish(rec, tier=tier, level="exploration", rule=RULE, assumptions=ASSUME, t0=t0,
                   required_classes=required)
